@@ -10,6 +10,7 @@ from ..core import FUNC, call_attr, calls_in, const, dotted, is_const, kwarg, no
 from .c01 import field_rules
 
 EXPLANATION = [
+    'C18.enum-distinct: every enumeration of wire codes in the codec modules gives distinct members distinct values (specified aliases listed by name): a member that shares a code with another one cannot round-trip.',
     'C18.rtp-tail: MediaPacket.from_bytes hands the constructor data[12 + 4*CC:] untouched on every path (symbolic value of the returned constructor call), the constructor stores it unchanged and __bytes__ ends with it: what the parser took as payload is what the serialiser writes.',
     'C18.fresh-values: no from_*/parse*/create* function of the codec modules carries a memoising decorator (lru_cache, cache, ...): a parse result is never shared with an earlier parse, so it cannot depend on the history of the process.',
     'C18.sdp-depth: the SDP parser\'s nesting counter is restored on every normal exit (same rule as C17.depth-balance), so what was parsed before does not change what parses next.',
@@ -515,6 +516,34 @@ def fresh_values(ctx):
     R.check(memo(control) == ['lru_cache'] and n >= 60, rule, 'codec modules | parsers and factories', f'{n} from_*/parse*/create* functions, none memoised (positive control matched)', f'census too small ({n}) or positive control not matched')
 
 
+ENUM_ALIASES = {
+    # the Core Specification Supplement gives these pairs one code each
+    'bumble.core.AdvertisingData.Type': {14: 'C and C-192', 15: 'R and R-192', 16: 'Device ID and Security Manager TK Value'},
+}
+
+
+def enum_distinct(ctx):
+    """Wire-code enumerations of the codec modules give distinct members distinct codes (an alias serialises and parses back as the other member)."""
+    R, p = ctx.r, ctx.p
+    rule = 'C18.enum-distinct'
+    n = 0
+    for q, ci in sorted(p.classes.items()):
+        if not any(q.startswith(m + '.') for m in CODEC_MODS):
+            continue
+        node = getattr(ci, 'node', None)
+        bases = [text(b) for b in node.bases] if node is not None else []
+        if not any('Enum' in b for b in bases):
+            continue
+        vals = {}
+        for k, v in ci.assigns.items():
+            if is_const(v) and isinstance(const(v), int) and not k.startswith('_'):
+                vals.setdefault(const(v), []).append(k)
+        n += 1
+        dup = {v: ks for v, ks in vals.items() if len(ks) > 1 and v not in ENUM_ALIASES.get(q, {})}
+        R.check(not dup, rule, q, f'{len(vals)} distinct codes', f'members share a code: {dup}: the later name is an alias, it goes out and parses back as the other member', p.loc(node) if node is not None else '')
+    R.check(n >= 30, rule, 'codec enumerations', f'{n} enumerations examined', f'only {n} enumerations found')
+
+
 def sdp_depth(ctx):
     from . import c17
     c17.depth_balance(ctx, rule='C18.sdp-depth')
@@ -550,6 +579,25 @@ def length_prefix(ctx):
                 R.check(norm(measured) == norm(right), rule, f'{p.qual_of(fn)} | length prefix', f'prefix = len({norm(measured)}) and the payload is that very value',
                         f'the length prefix counts `{norm(measured)}` but the bytes that follow are `{norm(right)}`: for values where the two differ (non-ASCII text) the reader cuts the field short and mis-frames everything after it', p.loc(r))
     R.check(n >= 1, rule, 'length-prefixed writers', f'{n} writers of the form len(x) + x examined', 'no length-prefixed writer found')
+    # readers: data whose length byte sits at index k starts at k + 1  (v[a : a + v[k]] needs a == k + 1)
+
+    def readers(tree):
+        out = []
+        for x in ast.walk(tree):
+            if isinstance(x, ast.Subscript) and isinstance(x.slice, ast.Slice) and x.slice.lower is not None and x.slice.upper is not None and is_const(x.slice.lower):
+                up = x.slice.upper
+                if isinstance(up, ast.BinOp) and isinstance(up.op, ast.Add) and is_const(up.left) and isinstance(up.right, ast.Subscript) and norm(up.right.value) == norm(x.value) and is_const(up.right.slice) and const(up.left) == const(x.slice.lower):
+                    out.append((x, const(x.slice.lower), const(up.right.slice)))
+        return out
+    ctl = readers(ast.parse('v[1:1 + v[1]]', mode='eval'))
+    m_ = 0
+    for mod in CODEC_MODS:
+        m = p.modules.get(mod)
+        for x, a, k in (readers(m.tree) if m else []):
+            m_ += 1
+            R.check(a == k + 1, rule, f'{p.qual_of(x)} | {norm(x)}', f'data read from {a}, right after its length byte at {k}',
+                    f'`{norm(x)}` reads data whose length byte is at index {k} starting at index {a}: the slice contains the length byte itself (or skips data) and a frame with such data does not round-trip', m.rel + f':{x.lineno}')
+    R.check(len(ctl) == 1 and ctl[0][1:] == (1, 1) and m_ >= 1, rule, 'length-prefixed readers', f'{m_} reader(s) of the form v[a : a + v[k]] examined (control matched)', f'reader census {m_}, control {ctl}')
 
 
 RULES = [
@@ -566,6 +614,7 @@ RULES = [
     ('C18.generic', generic),
     ('C18.rtp-tail', rtp_tail),
     ('C18.fresh-values', fresh_values),
+    ('C18.enum-distinct', enum_distinct),
 ]
 
 VARIANTS = [
